@@ -91,7 +91,14 @@ def gen_heading_doc(rng) -> str:
     return "\n\n".join(parts) + "\n"
 
 
+D98_DOC = "# **____*b*__ a__**\n"
+D98_OPTS = dict(width=88, semantic=False, smartquotes=False, ellipses=False, list_spacing="preserve")
+
+
 def classify(kf, rec):
+    import common
+    if common.repro_only(kf, rec):
+        return True
     c = rec["case"]
     cl = kf.get("classifier")
     what = rec["what"]
@@ -168,6 +175,9 @@ def run(chk: Check) -> None:
     base = c02.all_option_sets(rng, len(docs))
     on = [{"doc": d, "opts": dict(o, cleanups=True)} for d, o in zip(docs, base)]
     off = [{"doc": d, "opts": dict(o, cleanups=False)} for d, o in zip(docs, base)]
+    # listed with a fixed reproducer only (D-98): literal delimiter runs inside an entirely bold heading become emphasis once the bold is gone
+    on.append({"doc": D98_DOC, "opts": dict(D98_OPTS, cleanups=True), "repro": "D-98"})
+    off.append({"doc": D98_DOC, "opts": dict(D98_OPTS, cleanups=False), "repro": "D-98"})
     docports.run_fill_port(chk, on, name="fill_markdown cleanups on")
     docports.run_fill_port(chk, off, name="fill_markdown cleanups off")
     nb = 0
@@ -191,7 +201,7 @@ def run(chk: Check) -> None:
         if why:
             nb += 1
             d1 = None if c01.structure_preserved(a["doc"], a["opts"]["width"], a["opts"]["semantic"]) else "structure changed"
-            chk.fail("property", {"doc": a["doc"], "opts": a["opts"], "on": a["out"], "off": b["out"], "c01_diff": d1,
+            chk.fail("property", {"doc": a["doc"], "opts": a["opts"], "on": a["out"], "off": b["out"], "c01_diff": d1, "repro": a.get("repro"),
                                   "_diff": bool(a.get("_diff") or b.get("_diff"))}, "cleanups on vs off: " + why, classify)
     chk.port_stat("spec: cleanups = unbold wholly-bold headings, nothing else", len(on), nb)
     # ---- (b) list spacing ----
